@@ -5,12 +5,12 @@
 sd="$1"; shift
 d=$(mktemp -d /tmp/seedtest.XXXXXX)
 git -C /repo archive HEAD | tar -x -C "$d"
-( cd "$d" && PYTHONPATH="$d" timeout 600 /venv/bin/python "$sd/demo.py" >/tmp/seed_demo_clean.log 2>&1 ); rc_clean=$?
+( cd "$d" && PYTHONPATH="$d" timeout 600 /venv/bin/python "$sd/demo.py" >"$d.clean.log" 2>&1 ); rc_clean=$?
 if ! ( cd "$d" && patch -p1 -s < "$sd/patch.diff" ); then echo "PATCH DOES NOT APPLY"; rm -rf "$d"; exit 3; fi
-( cd "$d" && PYTHONPATH="$d" timeout 600 /venv/bin/python "$sd/demo.py" >/tmp/seed_demo_patched.log 2>&1 ); rc_patched=$?
-echo "demo: clean rc=$rc_clean patched rc=$rc_patched ($(tail -1 /tmp/seed_demo_patched.log | cut -c1-160))"
+( cd "$d" && PYTHONPATH="$d" timeout 600 /venv/bin/python "$sd/demo.py" >"$d.patched.log" 2>&1 ); rc_patched=$?
+echo "demo: clean rc=$rc_clean patched rc=$rc_patched ($(tail -1 "$d.patched.log" | cut -c1-160))"
 if [ -z "$SKIP_PINNED" ]; then /verif/tools/pinned.sh "$d" | head -3; fi
 for id in "$@"; do
   VERIF_REPO="$d" /verif/check "$id" --no-evidence 2>&1 | grep -E "^(C[0-9]+ tier|VIOLATION|    case|   [A-Za-z])" | cut -c1-260 | head -${LINES_MAX:-5}
 done
-rm -rf "$d"
+rm -rf "$d" "$d.clean.log" "$d.patched.log"
